@@ -214,6 +214,43 @@ def main(tier, seed, pid):
         payload.update(extra or {})
         res.violation(what, payload, found_input=found)
 
+    if pid == "C11":
+        # which inverse attributes an instance has entries for: coq/SuperIter.v (init_iattrs) vs InitIAttrs / superInvAttrIter,
+        # for every entity of both schemas; the oracle is the schema: own attributes and those of every entity above
+        for S in (popgen.VERIF_INV, popgen.VERIF_ALL):
+            sl_ = schema_lib(bdir, os.path.join(VERIF, "schemas", S.name.lower() + ".exp"))
+            hsup = schema_harness(bdir, sl_, "h_supinv")
+            rcs, outs, errs = sh([hsup], timeout=60)
+            got = {}
+            for l_ in outs.split("\n"):
+                if l_.startswith("ENT "):
+                    nm, _, rest_ = l_[4:].partition(" :")
+                    got[nm.strip().upper()] = [x.upper() for x in rest_.split()]
+            enames = sorted(S.ENTITIES)
+            eid = {e_: j + 1 for j, e_ in enumerate(enames)}
+            aid, anames = {}, {}
+            for e_ in enames:
+                for (iname, _E, _a, _g) in S.INVERSES.get(e_, []):
+                    aid[(e_, iname)] = len(aid) + 1
+                    anames[aid[(e_, iname)]] = "%s.%s" % (e_, iname.upper())
+            sups_ = " ".join("%d:%s" % (eid[e_], ",".join(str(eid[s_]) for s_ in S.ENTITIES[e_][0])) for e_ in enames)
+            invs_ = " ".join("%d:%s" % (eid[e_], ",".join(str(aid[(e_, i_[0])]) for i_ in S.INVERSES.get(e_, []))) for e_ in enames)
+            for e_ in enames:
+                evals += 1
+                hist["entries_compared"] = hist.get("entries_compared", 0) + 1
+                rcm_, mo_, _me = sh([drv], input=("E %d ; %s ; %s\n" % (eid[e_], sups_, invs_)).encode(), timeout=60)
+                model = [anames[int(x)] for x in mo_.split()[1:]] if mo_.startswith("ENT") and "FUEL" not in mo_ else None
+                impl = got.get(e_)
+                want = set(anames[aid[(x_, i_[0])]] for x_ in [e_] + S.supertypes(e_) for i_ in S.INVERSES.get(x_, []))
+                if impl is None or set(impl) != want:
+                    oracle_fail += 1
+                    res.violation("an instance of %s gets entries for the inverse attributes %s; it declares or inherits %s" % (e_, impl, sorted(want)),
+                                  {"replay": hsup, "schema": S.name})
+                if model != impl:
+                    disagreements += 1
+                    res.violation("model SuperIter.v and InitIAttrs / superInvAttrIter disagree on %s: model %s, implementation %s" % (e_, model, impl),
+                                  {"replay": hsup, "schema": S.name,
+                                   "theorem_or_correspondence": "correspondence C11: coq/SuperIter.v init_iattrs vs superInvAttrIter.h"}, found_input=False)
     fixed = C11_FIXED if pid == "C11" else []
     for k in range(-len(fixed), n):
         r = rng(seed, "%s/%d" % (pid, k))
